@@ -201,3 +201,218 @@ Theorem C03_tests_sound :
   (forall a b, unordered_eqb a b = true -> fperm a b) /\ (forall a b, same_levels a b = true -> tperm a b).
 Proof. split; [exact unordered_eqb_fperm | exact same_levels_tperm]. Qed.
 Print Assumptions C03_tests_sound.
+From Coq Require Import Permutation Sorted.
+From Annet Require Import Model.Pattern Model.DiffX Model.DiffSort Spec.P_C03X Proofs.DiffXProofs Proofs.DiffMProofs Proofs.DiffSortProofs.
+
+(* ================================================================================================
+   C03X -- the extended domain: %ignore_case re-keying, %multiline rules (Model/DiffX.v, Spec/P_C03X.v) and
+   resort_diff's order (Model/DiffSort.v).  [fl] gives the two new attributes of the governing rule.
+
+   LOSSLESS MODULO CASE, exactly: on the domain [xdom] the diff is a lossless description -- in the sense of
+   every C03 theorem above -- of the NORMALISED pair (normO ao an, normN ao an): each row governed by an
+   %ignore_case rule is replaced by its lower-case spelling at every depth (outside multiline bodies); the diff
+   shows that spelling, neither old's nor new's; a row spelled differently on the two sides is one row, present
+   on both sides, and carries the match recorded last (new's unless new's spelling is already lower case).
+   Forgetting the matches the normalised sides are just the lowered sides (C03X_norm_only_lowers). *)
+Theorem C03X_lossless :
+  forall fl rmatch rs old new,
+    let ao := annot_f rmatch rs old in let an := annot_f rmatch rs new in
+    xdom fl ao an = true -> lossless (normO fl ao an) (normN fl ao an) (make_diffX fl rmatch rs old new) = true.
+Proof. intros fl rmatch rs old new ao an H. exact (diffX_lossless fl rmatch rs old new H). Qed.
+Print Assumptions C03X_lossless.
+
+Theorem C03X_ordered_in_new_order :
+  forall fl rmatch rs old new,
+    let ao := annot_f rmatch rs old in let an := annot_f rmatch rs new in
+    xdom fl ao an = true -> order_ok (normN fl ao an) (make_diffX fl rmatch rs old new) = true.
+Proof. intros fl rmatch rs old new ao an H. exact (diffX_order fl rmatch rs old new H). Qed.
+Print Assumptions C03X_ordered_in_new_order.
+
+Theorem C03X_moved_all_depths :
+  forall fl rmatch rs old new,
+    let ao := annot_f rmatch rs old in let an := annot_f rmatch rs new in
+    xdom fl ao an = true -> moved_ok (normO fl ao an) (normN fl ao an) (make_diffX fl rmatch rs old new) = true.
+Proof. intros fl rmatch rs old new ao an H. exact (diffX_moved fl rmatch rs old new H). Qed.
+Print Assumptions C03X_moved_all_depths.
+
+Theorem C03X_rewrite_shown_whole :
+  forall fl rmatch rs old new,
+    let ao := annot_f rmatch rs old in let an := annot_f rmatch rs new in
+    xdom fl ao an = true -> rewrite_whole (normO fl ao an) (normN fl ao an) (make_diffX fl rmatch rs old new) = true.
+Proof. intros fl rmatch rs old new ao an H. exact (diffX_whole fl rmatch rs old new H). Qed.
+Print Assumptions C03X_rewrite_shown_whole.
+
+(* the normalisation only lowers rows: old|R and new|R modulo case *)
+Theorem C03X_norm_only_lowers :
+  forall fl ao an, erase_f (normO fl ao an) = erase_f (lower_f fl ao) /\ erase_f (normN fl ao an) = erase_f (lower_f fl an).
+Proof. intros fl ao an. split; [apply erase_f_normO | apply erase_f_normN]. Qed.
+Print Assumptions C03X_norm_only_lowers.
+
+(* the reconstruction law modulo case: dropping the ADDED entries gives old|R with the rows of %ignore_case rules
+   lowered, dropping the REMOVED ones gives new|R lowered (unordered, nesting intact; sides without %rewrite rows) *)
+Theorem C03X_projections :
+  forall fl rmatch rs old new,
+    let ao := annot_f rmatch rs old in let an := annot_f rmatch rs new in
+    xdom fl ao an = true ->
+    (norw (normO fl ao an) = true -> fperm (proj_old (make_diffX fl rmatch rs old new)) (erase_f (lower_f fl ao))) /\
+    (norw (normN fl ao an) = true -> fperm (proj_new (make_diffX fl rmatch rs old new)) (erase_f (lower_f fl an))).
+Proof.
+  intros fl rmatch rs old new ao an H. destruct (diffX_projections fl rmatch rs old new H) as [H1 H2].
+  fold ao an in H1, H2. rewrite erase_f_normO in H1. rewrite erase_f_normN in H2. split; assumption.
+Qed.
+Print Assumptions C03X_projections.
+
+(* two configurations whose normal forms coincide -- they differ only in the case of rows governed by
+   %ignore_case rules -- compare as equal at every depth *)
+Theorem C03X_equal_modulo_case :
+  forall fl rmatch rs old new,
+    let ao := annot_f rmatch rs old in let an := annot_f rmatch rs new in
+    xdom fl ao an = true -> normO fl ao an = normN fl ao an ->
+    strip_unchanged (make_diffX fl rmatch rs old new) = [].
+Proof. intros fl rmatch rs old new ao an H E. exact (diffX_equal_modulo_case fl rmatch rs old new H E). Qed.
+Print Assumptions C03X_equal_modulo_case.
+
+(* conservativity: no row governed by an %ignore_case rule => the extended model IS Model/Diff.v's make_diff *)
+Theorem C03X_conservative_ignore_case :
+  forall fl rmatch rs old new,
+    noic fl (annot_f rmatch rs old) = true -> noic fl (annot_f rmatch rs new) = true ->
+    make_diffX fl rmatch rs old new = make_diff rmatch rs old new.
+Proof. exact diffX_conservative. Qed.
+Print Assumptions C03X_conservative_ignore_case.
+
+(* conservativity of the %multiline extension, at every depth: without rows of %multiline rules the extended
+   differ is Model/Diff.v's diff_t, so make_diffXM = make_diffX (and = make_diff without %ignore_case rows) *)
+Theorem C03X_conservative_multiline :
+  forall fl nt, noml fl (akids nt) = true ->
+    forall ao pop inrw, noml fl ao = true -> diff_tM fl nt ao pop inrw = diff_t nt ao pop inrw.
+Proof. exact diff_tM_coincides. Qed.
+Print Assumptions C03X_conservative_multiline.
+
+Theorem C03X_full_model_without_multiline :
+  forall fl rmatch rs old new,
+    noml fl (normO fl (annot_f rmatch rs old) (annot_f rmatch rs new)) = true ->
+    noml fl (normN fl (annot_f rmatch rs old) (annot_f rmatch rs new)) = true ->
+    make_diffXM fl rmatch rs old new = make_diffX fl rmatch rs old new.
+Proof. exact make_diffXM_noml. Qed.
+Print Assumptions C03X_full_model_without_multiline.
+
+(* resort_diff: every level of the output is a permutation of the input level (for ANY comparison function, hence
+   also where diff_cmp is inconsistent) ... *)
+Theorem C03X_resort_permutes_levels :
+  (forall d, Permutation (resort d) (map resort_n d)) /\
+  (forall o r m k, resort_n (DN o r m k) = DN o r m (resort k)).
+Proof. split; [exact resort_perm | exact resort_n_kids]. Qed.
+Print Assumptions C03X_resort_permutes_levels.
+
+(* ... and where diff_cmp is a weak order on the entries of the level ([wo_on]: total and transitive "not greater")
+   the level is sorted by it and stable: entries diff_cmp does not distinguish keep their input order *)
+Theorem C03X_resort_sorted_stable :
+  forall d, wo_on d = true ->
+    StronglySorted (fun a b => cmp_leb a b = true) (resort d) /\
+    (forall x, In x d -> filter (eqv_on cmp_leb (resort_n x)) (resort d) =
+                         filter (eqv_on cmp_leb (resort_n x)) (map resort_n d)).
+Proof. exact resort_sorted_stable. Qed.
+Print Assumptions C03X_resort_sorted_stable.
+
+(* a level whose entries all have one op is left as it is *)
+Theorem C03X_resort_one_op : forall o d, Forall (fun x => d_op x = o) d -> resort d = map resort_n d.
+Proof. exact resort_one_op. Qed.
+Print Assumptions C03X_resort_one_op.
+
+(* FINDING (replayed on the real diff_cmp / resort_diff): diff_cmp is not a weak order.  removed "a 3" ~ removed "a 1"
+   (same op), removed "a 1" < added "a 2" < removed "a 3": the real resort_diff returns [a 3; a 1; a 2] unchanged for
+   that input although diff_cmp puts "a 2" before "a 3", and [a 1; a 2; a 3] for the input [a 3; a 2; a 1]. *)
+Definition sx_mi : minfo := MI "r" [] (Attrs "r" LDefault DDefault false false).
+Theorem C03X_diff_cmp_not_weak_order :
+  exists a b c, cmp_leb c a = true /\ cmp_leb a b = true /\ cmp_leb c b = false /\ wo_on [a; b; c] = false.
+Proof.
+  exists (DN Removed "a 3" sx_mi []), (DN Removed "a 1" sx_mi []), (DN Added "a 2" sx_mi []).
+  vm_compute. repeat split; reflexivity.
+Qed.
+Print Assumptions C03X_diff_cmp_not_weak_order.
+
+(* ---------------- non-vacuity and the behaviours the model reproduces (each replayed on the real make_diff) *)
+Definition ci_match (pat row : string) : option (list string) :=
+  if String.prefix (lower_str pat) (lower_str row) then Some [row] else None.
+Definition x_attrs (p : string) : attrs := Attrs p LDefault DDefault false false.
+Definition x_fl := fl_of [("desc %ignore_case", (true, false)); ("key %multiline", (false, true))].
+Definition x_rs : rset :=
+  ([PRule "desc %ignore_case" false (x_attrs "desc") [] []; PRule "mtu" false (x_attrs "mtu") [] [];
+    PRule "key %multiline" false (x_attrs "key") [PRule "l" false (x_attrs "l") [] []] []], []).
+
+(* the guard holds for a respelled row next to a changed one; the diff shows the LOWER-CASE spelling, which occurs
+   in neither configuration, and the key of the spelling recorded last *)
+Example C03X_xdom_nonvacuous :
+  let old := [("Desc A", T []); ("mtu 1", T [])] in let new := [("DESC a", T []); ("mtu 2", T [])] in
+  xdom x_fl (annot_f ci_match x_rs old) (annot_f ci_match x_rs new) = true /\
+  map (fun k => (d_op k, d_row k, mi_key (d_mi k))) (make_diffX x_fl ci_match x_rs old new) =
+  [(Unchanged, "desc a", ["DESC a"]); (Added, "mtu 2", ["mtu 2"]); (Removed, "mtu 1", ["mtu 1"])].
+Proof. vm_compute. split; reflexivity. Qed.
+
+Example C03X_modulo_case_nonvacuous :
+  let old := [("Desc A", T [])] in let new := [("desc a", T [])] in
+  xdom x_fl (annot_f ci_match x_rs old) (annot_f ci_match x_rs new) = true /\
+  normO x_fl (annot_f ci_match x_rs old) (annot_f ci_match x_rs new) =
+  normN x_fl (annot_f ci_match x_rs old) (annot_f ci_match x_rs new) /\ old <> new.
+Proof. vm_compute. repeat split; try reflexivity. discriminate. Qed.
+
+(* a multiline block is shown whole: the entry keeps the op default_diff gives it, its children are the complete new
+   body as ADDED rows, unchanged body lines included *)
+Example C03X_multiline_shown_whole :
+  make_diffXM x_fl ci_match x_rs [("key a", T [("l1", T []); ("l2", T [])])] [("key a", T [("l1", T []); ("l3", T [])])] =
+  [DN Affected "key a" (MI "key %multiline" ["key a"] (x_attrs "key")) [DN Added "l1" mi_body []; DN Added "l3" mi_body []]].
+Proof. vm_compute. reflexivity. Qed.
+
+(* FINDINGS reproduced by the faithful model (same results from the real make_diff):
+   (a) a new (or removed) row of a %multiline rule WITHOUT known children is not in the diff at all;
+   (b) a multiline block whose body is emptied is reported UNCHANGED;
+   (c) only the ORDER of the body lines differs => the whole block is shown (bodies are compared as ordered trees). *)
+Theorem C03X_multiline_losses :
+  make_diffXM x_fl ci_match x_rs [] [("key b", T [])] = [] /\
+  make_diffXM x_fl ci_match x_rs [("key b", T [])] [] = [] /\
+  map (fun k => (d_op k, d_row k)) (make_diffXM x_fl ci_match x_rs [("key a", T [("l1", T [])])] [("key a", T [])]) =
+  [(Unchanged, "key a")] /\
+  map (fun k => (d_op k, d_row k, List.length (d_kids k)))
+      (make_diffXM x_fl ci_match x_rs [("key a", T [("l1", T []); ("l2", T [])])] [("key a", T [("l2", T []); ("l1", T [])])]) =
+  [(Affected, "key a", 2)].
+Proof. vm_compute. repeat split; reflexivity. Qed.
+Print Assumptions C03X_multiline_losses.
+
+(* outside [xdom] (make_diff raises there, or loses a row; see known/C03.json): two spellings with children *)
+Example C03X_xdom_excludes_respelled_block :
+  let rs := ([PRule "blk %ignore_case" false (x_attrs "blk") [PRule "set" false (x_attrs "set") [] []] []], []) in
+  let fl := fl_of [("blk %ignore_case", (true, false))] in
+  xdom fl (annot_f ci_match rs [("Blk A", T [("set 1", T [])])]) (annot_f ci_match rs [("blk a", T [("set 2", T [])])]) = false.
+Proof. vm_compute. reflexivity. Qed.
+
+(* NOT PROVED (statements kept):
+   - losslessness at every depth for trees that contain rows of %multiline rules: Spec/P_C03X.v [ml_level_ok] says
+     what a level must satisfy (a multiline row is shown iff its bodies differ as ordered trees, exactly once, with an
+     exact op and the whole body); it is evaluated on every real output of the correspondence but its proof for
+     diff_tM needs the level lemmas of Proofs/DiffProofsLossless.v redone for the fourth group. *)
+Definition C03X_multiline_level_statement : Prop :=
+  forall fl rmatch rs old new,
+    let ao := annot_f rmatch rs old in let an := annot_f rmatch rs new in
+    xdom fl ao an = true ->
+    ml_level_ok fl (normO fl ao an) (normN fl ao an) (make_diffXM fl rmatch rs old new) = true.
+(* - a projection theorem for sides WITH %rewrite rows: the rows an unchanged %rewrite group contributes are
+     omitted from the diff and must be taken from the other configuration.  [recon_old an d] = proj_old d plus, on
+     every level, the %rewrite rows of new that the diff does not mention; missing: the induction (mirror of
+     Proofs/DiffProofsProj.v: level_proj_old with the [norw] case replaced by [same_t] => fperm of the erasures). *)
+Fixpoint recon_n (drop : op) (other : aforest) (d : dnode) {struct d} : forest :=
+  match d with
+  | DN o row _ kids =>
+    if op_eqb o drop then []
+    else let sub := asub_of other row in
+         [(row, T (flat_map (recon_n drop sub) kids ++
+                   erase_f (filter (fun k => dlogic_eqb (mi_dlogic (ami k)) DRewrite &&
+                                             negb (existsb (fun x => String.eqb (d_row x) (arow k)) kids)) sub)))]
+  end.
+Definition recon (drop : op) (other : aforest) (d : list dnode) : forest :=
+  flat_map (recon_n drop other) d ++
+  erase_f (filter (fun k => dlogic_eqb (mi_dlogic (ami k)) DRewrite &&
+                            negb (existsb (fun x => String.eqb (d_row x) (arow k)) d)) other).
+Definition C03X_projections_rewrite_statement : Prop :=
+  forall rmatch rs old new, wf old -> wf new ->
+    fperm (recon Added (annot_f rmatch rs new) (make_diff rmatch rs old new)) (erase_f (annot_f rmatch rs old)) /\
+    fperm (recon Removed (annot_f rmatch rs old) (make_diff rmatch rs old new)) (erase_f (annot_f rmatch rs new)).
